@@ -1,8 +1,11 @@
 #!/bin/sh
-# Extracts the L1 model (with the tables generated from the current /repo source) and builds the replay driver.
+# Extracts the L1 / L1n model (with the tables generated from the current /repo source) and builds the replay driver.
 set -e
 cd "$(dirname "$0")"
 mkdir -p _build && cd _build
-coqc -Q ../../coq/theories/L0 L0 -Q ../../coq/theories/L1 L1 -Q ../../coq/gen Gen ../../coq/theories/Extract/ExtractL1.v > extract.log 2>&1
+# (ExtractL1n.v: the nested model L1n, which contains the unmodified L1 model; needs L1/*.vo, L1h/Hist.vo, L1n/Model.vo)
+C=../../coq
+coqc -Q $C/theories/L0 L0 -Q $C/theories/L1 L1 -Q $C/gen Gen -Q $C/theories/L1h L1h -Q $C/theories/L1n L1n $C/theories/Extract/ExtractL1n.v > extract.log 2>&1
+rm -f $C/theories/Extract/ExtractL1n.vo $C/theories/Extract/ExtractL1n.vos $C/theories/Extract/ExtractL1n.vok $C/theories/Extract/ExtractL1n.glob $C/theories/Extract/.ExtractL1n.aux
 cp ../replay.ml .
-ocamlfind ocamlopt -O2 -w -a -package str l1model.mli l1model.ml replay.ml -linkpkg -o replay 2>/dev/null || ocamlfind ocamlopt -w -a -package str l1model.mli l1model.ml replay.ml -linkpkg -o replay
+ocamlfind ocamlopt -O2 -w -a -package str l1nmodel.mli l1nmodel.ml replay.ml -linkpkg -o replay 2>/dev/null || ocamlfind ocamlopt -w -a -package str l1nmodel.mli l1nmodel.ml replay.ml -linkpkg -o replay
